@@ -284,12 +284,13 @@ def _c01_job(job):
     k, v = parse_impl(text, allow)
     if k == 'raise':
         return ('raise', v)
+    links = check_links(v)
     d = docgen.diff(exp, docgen.content(v))
     if d:
-        return ('diff', d)
+        return ('diff', d, links)
     if v.allow_properties != allow:
-        return ('diff', 'database.allow_properties is %r' % v.allow_properties)
-    return ('ok', check_links(v))
+        return ('diff', 'database.allow_properties is %r' % v.allow_properties, links)
+    return ('ok', links, links)
 
 
 def pool_map(fn, jobs):
@@ -384,9 +385,9 @@ def run(v, tier, st, pr, pid):
         outs = pool_map(_c01_job, docs)
         nlinks = 0
         for (text, exp, allow), o in zip(docs, outs):
-            if o[0] == 'ok':
+            if o[0] in ('ok', 'diff'):
                 nlinks += 1
-                for f in o[1][:2]:
+                for f in o[2][:2]:
                     fails.append({'cause': 'oracle', 'clause': f, 'input': {'kind': 'document', 'text_hex': hexs(text), 'text': text, 'allow_properties': allow}})
         stats['databases_link_checked'] = nlinks
     elif pid == 'C06':
